@@ -17,12 +17,30 @@ func verifC15Compare(tag string, ua func([]byte) ([]byte, error), fa func([]byte
 	}
 }
 
+// verifC15History feeds the used receiver what was delivered of earlier frames:
+// up to C15.history arbitrary byte strings of 1..4 bytes (results ignored). This
+// reaches the states a receiver can actually get into, whatever fields it
+// keeps them in; the symbolic start state below covers the known fields.
+func verifC15History(ua func([]byte) ([]byte, error), n int) {
+	for i := 0; i < n; i++ {
+		_, _ = ua(verifBytes("history.packet", verifCase("history.len", 1, verifBound("C15.historylen"))))
+	}
+	if n > 0 {
+		verifCover("C15.history")
+	}
+}
+
 func VerifC15H264() {
 	avc := verifCase("avc", 0, 1) == 1
-	used := &H264Packet{IsAVC: avc, fuaBuffer: verifStale("stale")}
+	// either an arbitrary kept buffer, or a new receiver that is then fed arbitrary packets
+	history := verifCase("history", 0, verifBound("C15.history"))
+	used := &H264Packet{IsAVC: avc}
+	if history == 0 {
+		used.fuaBuffer = verifStale("stale")
+	}
 	fresh := &H264Packet{IsAVC: avc}
 	var pkts [][]byte
-	switch verifCase("frame", 0, 3) {
+	switch verifCase("frame", 0, 4) {
 	case 0: // single NAL unit
 		pkts = append(pkts, verifH264Unit(0, verifCase("size", 2, 3)).raw())
 	case 1: // STAP-A with two units
@@ -39,13 +57,19 @@ func VerifC15H264() {
 		pkts = append(pkts, append([]byte{u.hdr&0x60 | 28, 0x80 | u.typ()}, u.body[:cut]...))
 		pkts = append(pkts, append([]byte{u.hdr&0x60 | 28, 0x40 | u.typ()}, u.body[cut:]...))
 		verifCover("C15.h264.fua")
-	default: // FU-A in three packets followed by a single unit
+	case 3: // FU-A in three packets followed by a single unit
 		u := verifH264Unit(0, 4)
 		pkts = append(pkts, append([]byte{u.hdr&0x60 | 28, 0x80 | u.typ()}, u.body[:1]...))
 		pkts = append(pkts, append([]byte{u.hdr&0x60 | 28, u.typ()}, u.body[1:2]...))
 		pkts = append(pkts, append([]byte{u.hdr&0x60 | 28, 0x40 | u.typ()}, u.body[2:]...))
 		pkts = append(pkts, verifH264Unit(0, 2).raw())
+	default: // a single unit (an SEI, say) and then a unit fragmented in two FU-A packets
+		pkts = append(pkts, verifH264Unit(0, 2).raw())
+		u := verifH264Unit(0, 3)
+		pkts = append(pkts, append([]byte{u.hdr&0x60 | 28, 0x80 | u.typ()}, u.body[:1]...))
+		pkts = append(pkts, append([]byte{u.hdr&0x60 | 28, 0x40 | u.typ()}, u.body[1:]...))
 	}
+	verifC15History(used.Unmarshal, history)
 	verifC15Compare("C15.h264", used.Unmarshal, fresh.Unmarshal, pkts)
 	verifCover("C15.h264.end")
 }
@@ -55,16 +79,18 @@ func VerifC15H264() {
 func verifAV1OBU(name string, size int) []byte {
 	b := verifBytes(name, size)
 	if size > 0 {
-		t := verifU8(name+".type") & 0x0F
-		verifAssume(t != 2) // not a temporal delimiter
-		verifAssume(t != 8) // not a tile list
-		b[0] = t << 3       // forbidden bit 0, no extension, no size field
+		t := verifU8(name+".type") & 0x0F // any type, those a receiver must ignore included
+		b[0] = t << 3                     // forbidden bit 0, no extension, no size field
 	}
 	return b
 }
 
 func VerifC15AV1() {
-	used := &AV1Depacketizer{buffer: verifStale("stale"), Z: verifBool("z"), Y: verifBool("y"), N: verifBool("n")}
+	history := verifCase("history", 0, verifBound("C15.history"))
+	used := &AV1Depacketizer{}
+	if history == 0 {
+		used = &AV1Depacketizer{buffer: verifStale("stale"), Z: verifBool("z"), Y: verifBool("y"), N: verifBool("n")}
+	}
 	fresh := &AV1Depacketizer{}
 	n := uint8(0)
 	if verifBool("newSequence") {
@@ -87,6 +113,7 @@ func VerifC15AV1() {
 		pkts = append(pkts, append([]byte{0x80 | 0x10}, o[cut:]...))
 		verifCover("C15.av1.fragmented")
 	}
+	verifC15History(used.Unmarshal, history)
 	verifC15Compare("C15.av1", used.Unmarshal, fresh.Unmarshal, pkts)
 	verifCover("C15.av1.end")
 }
